@@ -184,7 +184,11 @@ static bool observe_state(mismatch *mm, bool counting, const char *after)
         int64_t iv = binson_parser_get_integer(p);
         bool bv = binson_parser_get_boolean(p);
         double dv = binson_parser_get_double(p);
-        bool se = binson_parser_string_equals(p, "a");
+        /* probes live in exact-size heap blocks: reading past the terminator is an ASan report */
+        static char *probe_a, *probe_x;
+        if (!probe_a) { probe_a = (char *) vf_xmalloc(2); probe_a[0] = 'a'; probe_a[1] = 0; probe_x = (char *) vf_xmalloc(2); probe_x[0] = 'x'; probe_x[1] = 0; }
+        bool se = binson_parser_string_equals(p, probe_a);
+        se = binson_parser_string_equals(p, probe_x) || se;
         (void) binson_parser_get_depth(p);
         if (counting) vf_count(CT_OBS_CALLS, 8);
         if (e1 != BINSON_ERROR_NONE) {
@@ -539,6 +543,24 @@ static void explore_config(void)
             vf_str_free(&b);
         } else vf_count(CT_IGNORED_OTHER_PROP, 1);
     }
+    if (!ok && FILL != 0) {
+        /* a rejected init: the fields a later successful reset does NOT rewrite (type, max_depth, buffer, buffer_size, state,
+         * cb, cb_context) must not keep the prior garbage, or what happens after that reset depends on it */
+        const fresh_t *f = &FR_init[KIND0 == VK_OBJ ? 0 : 1];
+        const binson_parser *q = L.p, *z = &f->img.p;
+        vf_count(CT_REINIT_CHECKS, 1);
+        if (q->type != z->type || q->max_depth != z->max_depth || q->buffer_size != z->buffer_size || q->buffer != vf_live_bufptr(&L) || q->state != L.st ||
+            q->cb != z->cb || q->cb_context != z->cb_context || q->error_flags != z->error_flags) {
+            if (P_C12 || P_C01) {
+                vf_str b = { 0 };
+                describe_case(&b, NULL, 0, -1);
+                vf_str_printf(&b, "mismatch: after an init that REJECTED the buffer, over memory filled with 0x%02x, a field that survives a later reset still holds the garbage (type %u/%u cb %s cb_context %s error %d/%d): a fresh parser has it cleared\n",
+                              FILL, (unsigned) q->type, (unsigned) z->type, q->cb == z->cb ? "ok" : "GARBAGE", q->cb_context == z->cb_context ? "ok" : "GARBAGE", (int) q->error_flags, (int) z->error_flags);
+                vf_violation("api:reinit:rejected-init-keeps-garbage", b.s);
+                vf_str_free(&b);
+            } else vf_count(CT_IGNORED_OTHER_PROP, 1);
+        }
+    }
     L.p->cb = count_cb; L.p->cb_context = NULL;
     vf_snap_save(&snap, &L);
     vf_count(CT_CONFIGS, 1);
@@ -853,11 +875,11 @@ static void worker(int w, int W, uint64_t start)
             vf_tokenum_run(&e);
         }
     /* 3. valid documents and all their one-deviation mutants */
-    static const int cls[] = { LC_INT8, LC_INT16, LC_STR, LC_BYT, LC_DBL, LC_TRUE, LC_OBJ, LC_ARR };
+    static const int cls[] = { LC_INT8, LC_INT16, LC_STR, LC_STRNUL, LC_BYT, LC_DBL, LC_TRUE, LC_OBJ, LC_ARR };     /* LC_STRNUL = "x\\0<k>" */
     static vf_gen g;
     for (int root = VK_OBJ; root <= VK_ARR; root++) {
         memset(&g, 0, sizeof g);
-        g.root_kind = root; g.max_tokens = N_DOC; g.classes = cls; g.nclasses = 8; g.names = vf_names_abc; g.nnames = 2; g.max_obj_depth = 4;
+        g.root_kind = root; g.max_tokens = N_DOC; g.classes = cls; g.nclasses = 9; g.names = vf_names_abc; g.nnames = 2; g.max_obj_depth = 4;
         g.cb = on_doc;
         vf_gen_run(&g);
     }
